@@ -166,6 +166,7 @@ def _bounded_runs(runs, tier, known, prop):
         n = ok = skipped = 0
         t0 = time.time()
         first_bad = None
+        first_gap = None
         hits = []
         budget = 20 if tier == 'quick' else 300
         for inputs in p.samples():
@@ -177,6 +178,9 @@ def _bounded_runs(runs, tier, known, prop):
                 ok += 1
             elif status == 'skip':
                 skipped += 1
+            elif status == 'gap':
+                if first_gap is None:
+                    first_gap = (inputs, detail)
             else:
                 kf = known_match(known, prop, p.name, inputs)
                 if kf is not None:
@@ -184,7 +188,7 @@ def _bounded_runs(runs, tier, known, prop):
                     continue
                 if first_bad is None:
                     first_bad = (inputs, detail)
-        recs.append(dict(proof=p.full, known=hits, first_bad=first_bad,
+        recs.append(dict(proof=p.full, known=hits, first_bad=first_bad, first_gap=first_gap,
                          entry=dict(proof=p.full, tool="run-time contract check of the real function (CPython)", cases=n, passed=ok,
                                     precondition_false=skipped, bound=p.note or "sample generator in the contract file",
                                     seconds=round(time.time() - t0, 2))))
@@ -214,7 +218,7 @@ def _start_bounded(runs, tier, known, prop):
     return proc, parent, (runs, tier, known, prop)
 
 
-def _collect_bounded(handle):
+def _collect_bounded(handle, allow_rerun=True):
     import pickle
     proc, parent, args = handle
     recs = None
@@ -224,6 +228,8 @@ def _collect_bounded(handle):
         recs = None
     proc.join()
     if not isinstance(recs, list):
+        if not allow_rerun:
+            raise RuntimeError(f"bounded child returned {recs!r}")
         recs = _bounded_runs(*args)
     by_name = {p.full: p for p, r in args[0]}
     for rec in recs:
@@ -231,9 +237,65 @@ def _collect_bounded(handle):
     return recs
 
 
+class _Watchdog:
+    """last line of defence against a symbolic execution that never returns: the generation budget is enforced by a signal
+    handler, which cannot run while the interpreter sits inside one call of the solver library (seen once: a changed function made
+    a term explode inside z3).  If a proof overruns its budget by a minute this thread reports the proof as undecided, still reports
+    what the bounded run-time cases found (they run in their own process), and ends the check: exit 1 if they found a violation,
+    else exit 2.  It never fires on a tree whose proofs generate in time."""
+
+    def __init__(self, prop, tier, bounded_child):
+        import threading
+        self.prop, self.tier, self.bounded_child = prop, tier, bounded_child
+        self.deadline = None
+        self.name = None
+        self.lock = threading.Lock()
+        t = threading.Thread(target=self._loop, daemon=True)
+        t.start()
+
+    def arm(self, name):
+        budget = int(os.environ.get('VERIF_GEN_TIMEOUT', 180 if self.tier == 'quick' else 900))
+        with self.lock:
+            self.name, self.deadline = name, time.time() + budget + 60
+
+    def disarm(self):
+        with self.lock:
+            self.name, self.deadline = None, None
+
+    def _loop(self):
+        while True:
+            time.sleep(2)
+            with self.lock:
+                fired = self.deadline is not None and time.time() > self.deadline
+                name = self.name
+            if fired:
+                self._abort(name)
+
+    def _abort(self, name):
+        import sys
+        code = 2
+        print(f"UNDECIDED {json.dumps(dict(proof=name, reason='outside reach: symbolic execution did not return within its budget (stuck inside the solver library); the check is ended here'))}")
+        nviol = 0
+        try:
+            for rec in _collect_bounded(self.bounded_child, allow_rerun=False):
+                if rec['first_bad'] is not None:
+                    p = rec['proof']
+                    inputs, detail = rec['first_bad']
+                    path = write_replay(self.prop, p, f"{p.full}::runtime-contract", inputs, detail)
+                    print(f"VIOLATION property={self.prop} replay={path}   # {p.full}::runtime-contract")
+                    nviol += 1
+                    code = 1
+        except Exception as e:      # noqa
+            print(f"ERROR bounded results unavailable after the generation overrun: {e!r}")
+        print(f"{self.prop} tier={self.tier}: obligations=? discharged=? undecided=1 violations={nviol} bounded_cases=? wall=? exit={code}")
+        sys.stdout.flush()
+        os._exit(code)
+
+
 def run_property(prop, tier, seed):
     t_start = time.time()
     random.seed(seed)
+    os.environ['VERIF_TIER_NOW'] = tier
     mod = importlib.import_module(f"contracts.{prop.lower()}")
     proofs = [p for p in api.PROOFS if p.prop == prop]
     if tier == 'quick':
@@ -251,11 +313,26 @@ def run_property(prop, tier, seed):
 
     runs = []
     jobs = []
+    # the bounded run-time contract cases run in a forked child from the start, in parallel with generation and discharge
+    bounded_child = _start_bounded([(p, None) for p in proofs], tier, known, prop)
+    watchdog = _Watchdog(prop, tier, bounded_child)
+    overruns = 0
     for p in proofs:
         if p.bounded_only:
             runs.append((p, None))
             continue
+        if overruns >= 2:
+            # two proofs already ran out of generation time: something systematic is wrong with this tree (or the engine); do not
+            # spend the budget again on every remaining proof - they are reported undecided, the bounded cases still run
+            r = api.ProofRun(p)
+            r.error = "not generated: two earlier proofs of this check exceeded their generation budget"
+            runs.append((p, r))
+            continue
+        watchdog.arm(p.full)
         r = api.generate(p)
+        watchdog.disarm()
+        if r.error and 'exceeded' in r.error and 'symbolic execution of the proof' in r.error:
+            overruns += 1
         runs.append((p, r))
         for k, ob in enumerate(r.obligations):
             jobs.append(((p.full, k), ob, p.timeout or timeout))
@@ -269,8 +346,6 @@ def run_property(prop, tier, seed):
             idxs = sorted({(j * (n_p - 1)) // max(1, want - 1) for j in range(min(want, n_p))})
             for i in idxs:
                 jobs.append(((p.full, 'canary', i), _Canary(*r.path_pcs[i]), 5))
-    # the bounded run-time contract cases run in a forked child while the obligations are being discharged
-    bounded_child = _start_bounded(runs, tier, known, prop)
     results = _discharge(jobs, all_solvers=(tier == 'thorough'))
     solver_time = 0.0
 
@@ -316,6 +391,10 @@ def run_property(prop, tier, seed):
             if status == 'skip':
                 continue
             path_replays['run'] += 1
+            if status == 'gap':
+                undecided.append(dict(proof=p.full, reason=detail[0], inputs=api.jsonable(cinputs)))
+                bump(2)
+                continue
             if status == 'violation':
                 kf = known_match(known, prop, p.name, cinputs)
                 if kf is not None:
@@ -401,6 +480,14 @@ def run_property(prop, tier, seed):
         p = rec['proof']
         known_hits.extend((kf, f"{p.full}::runtime") for kf in rec['known'])
         bounded.append(rec['entry'])
+        if rec['entry']['cases'] > 0 and rec['entry']['precondition_false'] == rec['entry']['cases']:
+            # vacuity guard: a sample generator none of whose cases satisfies the precondition / declared input types checks nothing
+            errors.append(f"vacuous run-time cases: every one of the {rec['entry']['cases']} samples of {p.full} was skipped "
+                          f"(precondition false or input outside its declared type)")
+            bump(3)
+        if rec.get('first_gap') is not None:
+            undecided.append(dict(proof=p.full, reason=rec['first_gap'][1][0], inputs=api.jsonable(rec['first_gap'][0])))
+            bump(2)
         if rec['first_bad'] is not None:
             inputs, detail = rec['first_bad']
             path = write_replay(prop, p, f"{p.full}::runtime-contract", inputs, detail)
